@@ -34,6 +34,7 @@ def handlers : List (List String → Option String) := [
   handleTie,
   handleDisplay,
   handleReport,
+  handleReportWidths,
   handleScaleM,
   handleSerdeEq,
   handleGroupMore,
